@@ -35,7 +35,11 @@ type c20Case struct {
 	Kind string  `json:"kind"`
 }
 
-var c20Names = []string{"a", "A", "_b1", "IFS", "HOME", "@", "*", "#", "?", "-", "$", "!", "0", "1", "2", "10", "01"}
+var c20Names = []string{"a", "A", "_b1", "IFS", "HOME", "@", "*", "#", "?", "-", "$", "!", "0", "1", "2", "10", "01", "00", "000", "99999999999999999999", "+1"}
+
+// names that are positional by the documented rule (all digits, not \"0\") but whose
+// numeric reading is odd: only Set / Unset / Walk are exercised on them
+var c20OddPositional = map[string]bool{"00": true, "000": true, "99999999999999999999": true}
 var c20Ordinary = []string{"a", "A", "_b1"}
 
 type c20Model struct {
@@ -301,8 +305,8 @@ func c20Exec(c *core.Ctx, cs c20Case) {
 		}
 		// observe the whole state after every step
 		for _, n := range c20Names {
-			if n == "@" || n == "*" {
-				continue // not parameters Get can return; covered by Walk
+			if n == "@" || n == "*" || c20OddPositional[n] {
+				continue // not parameters Get can return (or an unspecified reading); covered by Walk
 			}
 			wv, wset := m.get(n)
 			gv, gset := env.Get(n)
@@ -362,7 +366,7 @@ func c20RandOp(r *rand.Rand) c20Op {
 			form = "plain" // operators on $@ / $* are outside the pinned rows (see C13)
 		}
 		src := map[string]string{"plain": "${%s}", ":-": "${%s:-dflt}", ":+": "${%s:+alt}", ":=": "${%s:=dflt}", "=": "${%s=dflt}", ":?": "${%s:?msg}"}[form]
-		if n == "#" || n == "01" {
+		if n == "#" || n == "01" || c20OddPositional[n] || n == "+1" {
 			n = on
 		}
 		return c20Op{Op: "expand", Name: n, Val: form, Src: fmt.Sprintf(src, n)}
